@@ -1,8 +1,14 @@
 import HL.Driver.C01
 open Lean
 
+/-- Every property's driver module exports `handle : String → Json → Option Json`;
+    add one line here per module. -/
+def handlers : List (String → Json → Option Json) := [
+  HL.Driver.C01.handle
+]
+
 def dispatch (op : String) (j : Json) : Json :=
-  match HL.Driver.C01.handle op j with
+  match handlers.findSome? (fun h => h op j) with
   | some r => r
   | none => Json.mkObj [("error", s!"unknown op {op}")]
 
